@@ -84,6 +84,9 @@ func runC03(c *core.Ctx) {
 	}
 	c.Rule("R3.6", "per bucket the shared and the exclusive table hold two views of one mutex: the value stored in the shared table is the object stored in the exclusive table at the same index, or its RLocker()", 1)
 	checkLockPairs(c, "R3.6", sharedG, exclG)
+	c.Rule("R3.7", "the lock constructors wrap on every path: no return of Locked / LockedWithExisting hands the given orchestrator constructor back unwrapped", 2)
+	checkConstructorsAlwaysWrap(c, "R3.7", role.Impl.Named)
+	c.Share(map[string]string{"R6.2": "R3.8"}, runC06) // L1 and L2 agree at the end only if each tier executes the command it was sent (a batched L1 that appends where L2 prepends differs for good)
 	// wrapper fields -> table
 	fieldTable := map[string]string{}
 	var ctorAllocs []*ssa.Alloc
